@@ -15,17 +15,17 @@ namespace TfelVerif.C23.PropsN3_SPATIAL_MODULI__DS_DEGL
 open TfelVerif TfelVerif.Mandel TfelVerif.C23
 set_option linter.all false
 set_option maxHeartbeats 16000000
+set_option maxRecDepth 100000
 variable {K : Type} [Field K] (c c3 : K) (fn : Fns K)
 
 /-- `SPATIAL_MODULI ← DS_DEGL` (3D): along every variation `δF = L F` the converted operator, applied to the
 rate of its kinematic variable, gives the rate of the Lie derivative of the Kirchhoff stress that reproduces the same Lie derivative of
 the Kirchhoff stress as the source operator (rate of the second Piola–Kirchhoff stress) does. -/
 theorem N3_SPATIAL_MODULI__DS_DEGL (hc : c * c = 2) (h2 : (2:K) ≠ 0)
-    (D : Nat → Nat → K) (F0 F : M3 K) (L : M3 K) (s : Nat → K)  :
-    upper (lamSM F (M3.ofMandel c [s 0, s 1, s 2, s 3, s 4, s 5]) L (M3.ofMandel c (act (Gen.N3_SPATIAL_MODULI__DS_DEGL_r c c3 fn D (tensv F0) (tensv F) s) (M3.mandel3 c (symm L)))))
-      = upper (lamS F (M3.ofMandel c [s 0, s 1, s 2, s 3, s 4, s 5]) L (M3.ofMandel c (act (rowsOf D i6 i6) (M3.mandel3 c (dE F L))))) := by
+    (D : Nat → Nat → K) (F0 : M3 K) (g : Nat → K) (L : M3 K) (s : Nat → K)  :
+    upper (lamSM (M3.ofTens [g 0, g 1, g 2, g 3, g 4, g 5, g 6, g 7, g 8]) (M3.ofMandel c [s 0, s 1, s 2, s 3, s 4, s 5]) L (M3.ofMandel c (act (Gen.N3_SPATIAL_MODULI__DS_DEGL_r c c3 fn D (tensv F0) g s) (M3.mandel3 c (symm L)))))
+      = upper (lamS (M3.ofTens [g 0, g 1, g 2, g 3, g 4, g 5, g 6, g 7, g 8]) (M3.ofMandel c [s 0, s 1, s 2, s 3, s 4, s 5]) L (M3.ofMandel c (act (rowsOf D i6 i6) (M3.mandel3 c (dE (M3.ofTens [g 0, g 1, g 2, g 3, g 4, g 5, g 6, g 7, g 8]) L))))) := by
   have hc0 : c ≠ 0 := c_ne_zero hc h2
-  obtain ⟨f00,f01,f02,f10,f11,f12,f20,f21,f22⟩ := F
   obtain ⟨l00,l01,l02,l10,l11,l12,l20,l21,l22⟩ := L
   c23_rat0 hc
 
